@@ -474,6 +474,8 @@ func checkC06(w *World, r *Report) {
 	checkPolicyQueriesPure(w, r)
 	checkPolicyAnswersFromValues(w, r)
 	checkEvaluationStaysInContext(w, r)
+	checkNestedContextsKeepEnvironment(w, r)
+	checkPolicyQuestionsAgree(w, r, "R06.13")
 	checkNoNestedTopLevelRender(w, r, reach)
 	checkEveryFilterBecomesANode(w, r)
 	checkSandboxedIncludeSetsFlag(w, r)
@@ -1502,4 +1504,184 @@ func checkEvaluationStaysInContext(w *World, r *Report) {
 	}
 	r.ok("R06.11", "(package)", "evaluating calls receive the context at hand", "-", fmt.Sprintf("%d context arguments of evaluating calls examined, none reached through .parent", n), true)
 	r.floor("context arguments of evaluating calls", n, 20)
+}
+
+// checkNestedContextsKeepEnvironment — R06.12: a context made during a render belongs to the
+// environment of the render.  In every function that is handed a *RenderContext, each call that
+// passes an *Environment (NewRenderContext and its wrappers) passes the env field of a render
+// context — never the environment a template, a node or another engine carries.  The security
+// policy, the sandbox switch and the filter tables live in the environment: a layout or partial
+// that "brings its own" is judged by the policy of the engine that built it, not by the one the
+// sandboxed include runs under.
+func checkNestedContextsKeepEnvironment(w *World, r *Report) {
+	envT := w.named("Environment")
+	isEnvPtr := func(t types.Type) bool {
+		p, ok := t.(*types.Pointer)
+		return ok && types.Identical(p.Elem(), envT)
+	}
+	n := 0
+	reach := w.renderOnlyReachable()
+	for _, fn := range w.pkgFuncs() {
+		if !reach[fn] {
+			continue
+		}
+		hasCtx := false
+		for _, p := range fn.Params {
+			if isNamed(p.Type(), twigPath, "RenderContext") {
+				hasCtx = true
+			}
+		}
+		if !hasCtx {
+			continue
+		}
+		instrsOf(fn, func(in ssa.Instruction) {
+			c, ok := in.(ssa.CallInstruction)
+			if !ok {
+				return
+			}
+			g := c.Common().StaticCallee()
+			if g == nil || !isTwigFn(g) {
+				return
+			}
+			args := c.Common().Args
+			for i, a := range args {
+				if !isEnvPtr(a.Type()) {
+					continue
+				}
+				if g.Signature.Recv() != nil && i == 0 {
+					continue // a method of Environment called on some environment: not a hand-over
+				}
+				n++
+				construct := fmt.Sprintf("environment passed to %s", g.Name())
+				bad := ""
+				seen := map[ssa.Value]bool{}
+				var walk func(v ssa.Value, d int)
+				walk = func(v ssa.Value, d int) {
+					v = unspill(v)
+					if seen[v] || d > 8 || bad != "" {
+						return
+					}
+					seen[v] = true
+					switch x := v.(type) {
+					case *ssa.Const:
+						return
+					case *ssa.Phi:
+						for _, e := range x.Edges {
+							walk(e, d+1)
+						}
+						return
+					case *ssa.UnOp:
+						if fa, ok := x.X.(*ssa.FieldAddr); ok && x.Op == token.MUL {
+							if t, f := fieldOfAddr(fa); t == "RenderContext" && f == "env" {
+								return
+							}
+							t, f := fieldOfAddr(fa)
+							bad = t + "." + f
+							return
+						}
+					case *ssa.Parameter:
+						return // the caller's choice: examined at the caller
+					}
+					bad = describe(v)
+				}
+				walk(a, 0)
+				if bad == "" {
+					r.ok("R06.12", ssaName(fn), construct, w.posOf(in.Pos()), "the env field of a render context (or a parameter) on every edge", true)
+				} else {
+					r.bad("R06.12", ssaName(fn), construct, w.posOf(in.Pos()), "the nested context is given "+bad+" as its environment instead of the environment of the running render: the security policy and sandbox setting that apply to the nested template are those of whoever built it, so a filter or function the current policy forbids can run under a sandboxed include")
+				}
+			}
+		})
+	}
+	r.floor("environments handed to nested contexts", n, 3)
+}
+
+// checkPolicyQuestionsAgree — R06.13: every place that asks the security policy about a filter
+// (a function) asks about the same thing.  The package consults the policy twice for one use —
+// when the expression is evaluated and again where the filter is applied — and the two answers
+// must be about the same name: at all call sites of one policy method the argument is formed the
+// same way (the name as written, or the same helper applied to it).  A site that translates the
+// name (alias → canonical) while its sibling does not makes one spelling of a filter pass the
+// first gate and fail the second, or the reverse: `e` and `escape` stop behaving alike, and a
+// name the policy forbids in one spelling runs in the other.
+func checkPolicyQuestionsAgree(w *World, r *Report, rule string) {
+	type site struct {
+		fn    *ssa.Function
+		in    ssa.Instruction
+		shape string
+	}
+	sites := map[string][]site{}
+	for _, fn := range w.pkgFuncs() {
+		instrsOf(fn, func(in ssa.Instruction) {
+			c, ok := in.(ssa.CallInstruction)
+			if !ok || !c.Common().IsInvoke() || !isNamed(c.Common().Value.Type(), twigPath, "SecurityPolicy") || len(c.Common().Args) != 1 {
+				return
+			}
+			m := c.Common().Method.Name()
+			// how the argument is formed
+			var shape func(v ssa.Value, d int) string
+			shape = func(v ssa.Value, d int) string {
+				v = unspill(v)
+				if d > 6 {
+					return "?"
+				}
+				switch x := v.(type) {
+				case *ssa.Call:
+					if g := x.Call.StaticCallee(); g != nil {
+						inner := ""
+						for _, a := range x.Call.Args {
+							if b, ok := a.Type().Underlying().(*types.Basic); ok && b.Info()&types.IsString != 0 {
+								inner = shape(a, d+1)
+							}
+						}
+						return g.Name() + "(" + inner + ")"
+					}
+					return "call"
+				case *ssa.Phi:
+					var parts []string
+					for _, e := range x.Edges {
+						parts = append(parts, shape(e, d+1))
+					}
+					sort.Strings(parts)
+					return "phi[" + strings.Join(parts, ",") + "]"
+				case *ssa.BinOp:
+					return "concat"
+				case *ssa.Slice:
+					return "slice"
+				}
+				return "name"
+			}
+			sites[m] = append(sites[m], site{fn, in, shape(c.Common().Args[0], 0)})
+		})
+	}
+	n := 0
+	var methods []string
+	for m := range sites {
+		methods = append(methods, m)
+	}
+	sort.Strings(methods)
+	for _, m := range methods {
+		ss := sites[m]
+		count := map[string]int{}
+		for _, s := range ss {
+			count[s.shape]++
+		}
+		// the reference: the most common shape ("name" wins ties)
+		ref := "name"
+		for sh, c := range count {
+			if c > count[ref] {
+				ref = sh
+			}
+		}
+		for _, s := range ss {
+			n++
+			construct := "argument of " + m + " formed like at the sibling sites"
+			if s.shape == ref {
+				r.ok(rule, ssaName(s.fn), construct, w.posOf(s.in.Pos()), "asked about: "+s.shape, len(ss) > 1)
+			} else {
+				r.bad(rule, ssaName(s.fn), construct, w.posOf(s.in.Pos()), fmt.Sprintf("this site asks the policy about %s while %d other site(s) ask about %s: the two gates of one filter use disagree for every name the translation changes, so spellings of one filter (e / escape) are treated differently under a sandbox", s.shape, count[ref], ref))
+			}
+		}
+	}
+	r.floor("questions put to the security policy", n, 3)
 }
